@@ -118,7 +118,7 @@ def _values(rng, t, n):
 
 def cases(rng, tier):
     for gen in (int_cases, ext_cases, float_cases, smallest_cases, column_cases, interval32_cases, decimals_cases, reuse_cases,
-                strtable_cases, level_cases, params_cases, rewrite_cases, names_cases, encser_cases, cont_cases):
+                strtable_cases, level_cases, params_cases, rewrite_cases, names_cases, encser_cases, cont_cases, spell_cases):
         for c in gen(rng, tier):
             rt = c.get("rt")
             if rt and rt.get("enc") in ("rle", "delta", "pack", "bytes", "compress_int", "compress_float"):
@@ -268,6 +268,28 @@ def cont_cases(rng, tier):
                 ops.append("cont_reread")
         ops += ["cont_ser", "cont_reread", "cont_keys"]
         yield {"kind": "cont/" + level, "ops": ops, "rt": {"enc": "cont", "level": level}}
+
+
+
+def spell_cases(rng, tier):
+    """The same column content in every spelling the constructors accept (list, tuple, range, ndarray of any integer / float width,
+    strided, read-only, byte-swapped, str arrays of any width), handed in at every level (data, column, category constructor, item
+    assignment, single value): rejected or read back with the same values."""
+    for _ in range(24 if tier == "quick" else 200):
+        flavour = rng.choice(["int", "int", "float", "str", "bigint", "scalar"])
+        n = rng.randint(1, 9)
+        if flavour == "int":
+            data = [rng.choice([0, 1, -1, 127, 128, -129, 255, 256, 32767, 32768, 65535, 65536, 2 ** 31 - 1, -2 ** 31, rng.randint(-999, 999)]) for _ in range(n)]
+        elif flavour == "bigint":
+            data = [rng.choice([2 ** 31, -2 ** 31 - 1, 2 ** 32 - 1, 2 ** 32, 2 ** 63 - 1, 5]) for _ in range(n)]
+        elif flavour == "float":
+            data = [rng.randint(-4000, 4000) / 8 for _ in range(n)]
+        elif flavour == "str":
+            data = [rng.choice(["A", "BB", "", "x y", "HOH", "\u00e9", "a" * 12]) for _ in range(n)]
+        else:
+            data = [rng.choice([5, -3, 2.5, "X", ""])]
+        yield {"kind": "spell/" + flavour, "rt": {"enc": "spell", "flavour": flavour, "data": data, "seed": rng.randint(0, 10 ** 9),
+                                                   "via": rng.choice(["data", "column", "category", "setitem", "file"])}}
 
 
 
@@ -1047,6 +1069,8 @@ def oracle(case):
         v += _encser_check(rt)
     elif kind == "cont":
         v += _cont_oracle(case)
+    elif kind == "spell":
+        v += _spell_check(rt)
     elif kind == "strtable":
         v += _strtable_check(rt)
     elif kind == "level":
@@ -1375,6 +1399,78 @@ def _encser_check(rt):
 
 
 
+def _spell_check(rt):
+    import io
+    import random
+
+    import numpy as np
+    from biotite.structure.io.pdbx import bcif
+    r = random.Random(rt["seed"])
+    data, fl = list(rt["data"]), rt["flavour"]
+    spellings = []
+    if fl == "scalar":
+        x = data[0]
+        spellings = [("bare value", x)] + ([("numpy scalar", np.array([x])[0])] if not isinstance(x, str) else [("np.str_", np.str_(x))])
+    else:
+        spellings += [("list", list(data)), ("tuple", tuple(data))]
+        if fl in ("int", "bigint"):
+            for dt in (np.int8, np.int16, np.int32, np.int64, np.uint8, np.uint16, np.uint32, np.uint64):
+                info = np.iinfo(dt)
+                if all(info.min <= x <= info.max for x in data):
+                    spellings.append((np.dtype(dt).name, np.array(data, dtype=dt)))
+        elif fl == "float":
+            for dt in (np.float16, np.float32, np.float64):
+                spellings.append((np.dtype(dt).name, np.array(data, dtype=dt)))
+        else:
+            spellings += [("U", np.array(data, dtype="U")), ("U20", np.array(data, dtype="U20")), ("list of np.str_", [np.str_(x) for x in data])]
+        arrs = [(nm, a) for nm, a in spellings if isinstance(a, np.ndarray)]
+        for nm, a in arrs[:]:
+            big = np.zeros(2 * len(a), dtype=a.dtype)
+            big[::2] = a
+            spellings.append((nm + " strided", big[::2]))
+            ro = a.copy()
+            ro.setflags(write=False)
+            spellings.append((nm + " read-only", ro))
+            if a.dtype.kind in "iuf" and a.dtype.itemsize > 1:
+                spellings.append((nm + " byte-swapped", a.astype(a.dtype.newbyteorder(">"))))
+    r.shuffle(spellings)
+    out = []
+    for nm, sp in spellings[:6]:
+        snap = sp.copy() if isinstance(sp, np.ndarray) else None
+        try:
+            via = rt["via"]
+            if via == "data":
+                got = bcif.BinaryCIFData.deserialize(bcif.BinaryCIFData(sp).serialize()).array
+            elif via == "column":
+                got = bcif.BinaryCIFColumn.deserialize(bcif.BinaryCIFColumn(sp).serialize()).as_array()
+            else:
+                if via == "category" or via == "file":
+                    cat = bcif.BinaryCIFCategory({"c": sp})
+                else:
+                    cat = bcif.BinaryCIFCategory()
+                    cat["c"] = sp
+                if via == "file":
+                    f = bcif.BinaryCIFFile({"b": bcif.BinaryCIFBlock({"cat": cat})})
+                    buf = io.BytesIO()
+                    f.write(buf)
+                    buf.seek(0)
+                    got = bcif.BinaryCIFFile.read(buf)["b"]["cat"]["c"].as_array()
+                else:
+                    got = bcif.BinaryCIFCategory.deserialize(cat.serialize())["c"].as_array()
+        except Exception:
+            continue        # this spelling is refused
+        if snap is not None and (snap.tobytes() != sp.tobytes() or snap.dtype != sp.dtype):
+            out.append(("C05/spelling/argument-modified", f"{nm} {data} via {rt['via']}: the caller's array was changed"))
+        got = got.tolist()
+        # what the caller handed in (an ndarray spelling may already have rounded the literal, e.g. float16)
+        want = snap.tolist() if snap is not None else ([str(x) for x in data] if fl == "str" or isinstance(data[0], str) else data)
+        if len(got) != len(want) or any(a != b for a, b in zip(got, want)):
+            out.append(("C05/spelling/roundtrip", f"{data} given as {nm} via {rt['via']} reads back as {got[:10]}"))
+            break
+    return out
+
+
+
 def _file_roundtrip(rt):
     """BinaryCIFFile with int/float/string columns and masks: write -> read (plain and compressed) equal."""
     import io
@@ -1428,7 +1524,7 @@ def _file_roundtrip(rt):
 
 
 def nontrivial(case, impl_out):
-    if case["kind"].split("/")[0] in ("file", "column", "interval32", "decimals", "reuse", "u64", "strtable", "level", "params", "rewrite", "names", "encser", "cont"):
+    if case["kind"].split("/")[0] in ("file", "column", "interval32", "decimals", "reuse", "u64", "strtable", "level", "params", "rewrite", "names", "encser", "cont", "spell"):
         return True
     data = (case.get("rt") or {}).get("data")
     if data is not None and len(set(data)) >= 2:
